@@ -223,11 +223,15 @@ def validate_assumed(ctx):
 
 
 def t1(ctx):
-    ctx.assume("C11/T1: membership of a taxon in a namespace is membership in its accession dictionary (what `taxon in ns` tests); the label look-ups "
-               "require_taxon / new_taxon are ASSUMED to return a member and to remove none (bounded: C10/C11 drivers); add_taxon is C10's proved contract restated; "
+    ctx.assume("C11/T1: membership of a taxon in a namespace is membership in its accession dictionary (what `taxon in ns` tests); the contracts of "
+               "add_taxon / new_taxon / require_taxon / get_taxon that the callers are verified against are themselves PROVED (contracts/C11ns.py, same ensures "
+               "texts) under the representation invariant 'every listed taxon is a key of the accession map', which those functions and clear() preserve; that "
+               "every reachable namespace satisfies it (remove_taxon, sort, reverse, constructors, copies) is validated natively, not proved; "
                "sequences and memo dictionaries are abstracted values")
     for c in CONTRACTS:
         verify_contract(ctx, SUITE, c, sentinels=False, replay=dreplay.replay_by_search(_states))
+    from contracts import C11ns
+    C11ns.t1(ctx)
     validate_assumed(ctx)
 
 
